@@ -81,6 +81,7 @@ deriving DecidableEq, Repr
 structure Table (S V : Type) where
   schema : Option S
   cells : List (Option (Row V))
+deriving DecidableEq, Repr
 
 /-- `len(table.metadata) > 0` -/
 def hasBytes {S V : Type} (t : Table S V) : Bool := t.cells.any Option.isSome
@@ -114,6 +115,17 @@ def dropMetadata {S V : Type} (t : Table S V) : Table S V :=
 structure Res (S V : Type) where
   table : Table S V
   outcome : Outcome
+deriving DecidableEq, Repr
+
+/-- The tail of the `except` branch once the warn-and-return exit has not been taken:
+`drop_metadata()` if there was a schema or bytes, install the default schema, write again. -/
+def clearAndWrite {S V : Type} (admits : S → Row V → Bool) (dflt : S)
+    (t : Table S V) (mean var : List V) : Res S V :=
+  let t0 := if hasBytes t || t.schema.isSome then dropMetadata t else t
+  let t1 : Table S V := { schema := some dflt, cells := t0.cells }
+  match timeMdArray admits t1 mean var with
+  | some rows => ⟨packset t1 rows, .replaced⟩
+  | none => ⟨t1, .failed⟩
 
 /-- `set_time_metadata(table, mean, var, default_schema)` with `self.set_metadata = sm`. -/
 def setTimeMetadata {S V : Type} (admits : S → Row V → Bool) (dflt : S) (sm : SetMd)
@@ -126,12 +138,7 @@ def setTimeMetadata {S V : Type} (admits : S → Row V → Bool) (dflt : S) (sm 
     | some rows => ⟨packset t rows, .merged⟩
     | none =>
       if (hasBytes t || t.schema.isSome) && sm == .auto then ⟨t, .warned⟩
-      else
-        let t0 := if hasBytes t || t.schema.isSome then dropMetadata t else t
-        let t1 : Table S V := { t0 with schema := some dflt }
-        match timeMdArray admits t1 mean var with
-        | some rows => ⟨packset t1 rows, .replaced⟩
-        | none => ⟨t1, .failed⟩
+      else clearAndWrite admits dflt t mean var
 
 /-- Which tables receive a posterior variance from each method's `Results(...)`:
 variational_gamma → nodes and mutations; inside_outside → nodes only (mutation_var = None);
@@ -148,8 +155,14 @@ def Method.mutVar : Method → Bool
 
 /-! ### A small executable validator used by the driver (tied to tskit by correspondence) -/
 
-/-- JSON-schema fragment for objects: `additionalProperties`, `required`, per-key value type.
-Values are strings whose first character is a type tag (`n` number, `s` string, `o` other). -/
+/-- A JSON value as the validator sees it: a type tag (`n` number, `s` string, `o` anything else)
+and an opaque body (the harness puts the canonical encoding there). -/
+structure TV where
+  tag : Char
+  body : String
+deriving DecidableEq, Repr
+
+/-- JSON-schema fragment for objects: `additionalProperties`, `required`, per-key value type. -/
 structure Spec where
   id : String
   allowed : Option (List String)      -- `none` = additional properties allowed
@@ -157,13 +170,13 @@ structure Spec where
   types : List (String × Char)
 deriving DecidableEq, Repr
 
-def Spec.admits (s : Spec) (r : Row String) : Bool :=
+def Spec.admits (s : Spec) (r : Row TV) : Bool :=
   (match s.allowed with
     | none => true
     | some ks => r.all (fun kv => ks.contains kv.1)) &&
   s.required.all (fun k => (get k r).isSome) &&
   s.types.all (fun kt => match get kt.1 r with
     | none => true
-    | some v => v.front == kt.2)
+    | some v => v.tag == kt.2)
 
 end Tsdate.Metadata
